@@ -171,7 +171,12 @@ func (mt *MetricTable) MergeFailed(from *MetricTable) {
 	if from.metricPeriodStart.Before(mt.metricPeriodStart) {
 		mt.metricPeriodStart = from.metricPeriodStart
 	}
-	mt.failedHarvests = fails
+	// Several failed payloads may be merged into the same table (the metric
+	// data and the data usage metrics of a harvest): keep the highest count
+	// so that a fresh payload does not reset the attempts of an older one.
+	if fails > mt.failedHarvests {
+		mt.failedHarvests = fails
+	}
 	log.Debugf("merging metrics: %d failed harvest attempts", fails)
 	mt.Merge(from)
 }
